@@ -28,8 +28,10 @@ def strategy(rng, n, canary):
 
 
 def canary_spec(rng, n):
-    return K.default_canary(replicas=rng.choice([1, 1, 2, "50%"]), duration=rng.choice([30, 60, 600]),
-                            mode=rng.choice(["auto", "auto", "manual"]), no_restarts=rng.choice([None, 10, 30]),
+    mode = rng.choice(["auto", "auto", "manual"])
+    # a valid spec: manual validation mode has neither duration nor noRestartsDuration
+    return K.default_canary(replicas=rng.choice([1, 1, 2, "50%"]), duration=rng.choice([30, 60, 600]) if mode == "auto" else None,
+                            mode=mode, no_restarts=rng.choice([None, 10, 30]) if mode == "auto" else None,
                             ap_enabled=rng.random() < 0.8, ap_max=rng.choice([2, 0]), af_enabled=rng.random() < 0.8,
                             af_max=rng.choice([5, 3]), max_slow=None, restarts_dur=rng.choice([None, 30]),
                             timeout=rng.choice([None, None, 700]))
